@@ -4,21 +4,82 @@ import (
 	"encoding/json"
 	"fmt"
 	"os"
+	"os/exec"
+	"path/filepath"
 	"strings"
 )
 
 // Replay of solver counterexamples against the real code (drivers are
 // in-package Go tests injected with `go test -overlay`).
 
-func tryReplay(w *World, verif, prop string, ob *Obligation) *ReplayOutcome {
-	d := replayDrivers[ob.Func]
-	if d == nil {
-		return nil
-	}
-	return d(w, verif, prop, ob)
+// ReplayDriver: a scenario test kept under /verif/replay that exercises the
+// real code on the path a named obligation guards. The test asserts the
+// property; when the obligation fails and the test fails too, the violation
+// has a concrete failing run on the real code.
+type ReplayDriver struct {
+	Match string `json:"match"` // substring of the obligation name
+	Pkg   string `json:"pkg"`   // package directory in the repository
+	File  string `json:"file"`  // test file, relative to /verif
+	Test  string `json:"test"`  // test function
+	Note  string `json:"note,omitempty"`
 }
 
-var replayDrivers = map[string]func(w *World, verif, prop string, ob *Obligation) *ReplayOutcome{}
+func loadDrivers(verif string) []ReplayDriver {
+	var ds []ReplayDriver
+	data, err := os.ReadFile(filepath.Join(verif, "replay", "drivers.json"))
+	if err == nil {
+		_ = json.Unmarshal(data, &ds)
+	}
+	return ds
+}
+
+// runReplayTest injects file into pkg with `go test -overlay` and runs one
+// test. reproduced = the test failed (it asserts the property).
+func runReplayTest(repo, verif, pkg, file, test string) (reproduced bool, out string) {
+	dir, err := os.MkdirTemp("", "hvreplay")
+	if err != nil {
+		return false, err.Error()
+	}
+	defer os.RemoveAll(dir)
+	src := filepath.Join(verif, file)
+	dst := filepath.Join(repo, pkg, filepath.Base(file))
+	ov, _ := json.Marshal(map[string]any{"Replace": map[string]string{dst: src}})
+	ovf := filepath.Join(dir, "ov.json")
+	os.WriteFile(ovf, ov, 0o644)
+	cmd := exec.Command("go", "test", "-overlay", ovf, "-vet=off", "-count=1", "-timeout", "90s", "-run", "^"+test+"$", "./"+pkg+"/")
+	cmd.Dir = repo
+	cmd.Env = append(os.Environ(), "GOFLAGS=-mod=mod", "GOPROXY=off", "GOSUMDB=off", "GOTOOLCHAIN=local")
+	b, err := cmd.CombinedOutput()
+	text := string(b)
+	var keep []string
+	for _, l := range strings.Split(text, "\n") {
+		if strings.Contains(l, "level=") || strings.HasPrefix(l, "time=") || strings.Contains(l, " ERROR ") || strings.Contains(l, " WARN ") {
+			continue
+		}
+		keep = append(keep, l)
+	}
+	text = strings.Join(keep, "\n")
+	if len(text) > 3000 {
+		text = text[:3000] + "\n...[truncated]"
+	}
+	if err == nil {
+		return false, text
+	}
+	if strings.Contains(text, "--- FAIL") || strings.Contains(text, "panic:") || strings.Contains(text, "FAIL\t") {
+		return true, text
+	}
+	return false, text
+}
+
+func tryReplay(w *World, verif, prop string, ob *Obligation) *ReplayOutcome {
+	for _, d := range loadDrivers(verif) {
+		if d.Match != "" && strings.Contains(ob.Name, d.Match) {
+			rep, out := runReplayTest(w.repo, verif, d.Pkg, d.File, d.Test)
+			return &ReplayOutcome{Driver: d.File + ":" + d.Test, Input: d.Note, Observed: out, Reproduced: rep}
+		}
+	}
+	return nil
+}
 
 // hv replay <path> : re-examine a recorded violation. Prints the failed
 // obligation, where it is anchored, the recorded counterexample (if the solver
